@@ -235,6 +235,8 @@ class SuperRef(object):
 
 
 def deepcopy_(x):
+    if isinstance(x, Bag) and '__deepcopy__' in x._a:
+        return x._a['__deepcopy__'](x)
     if isinstance(x, list):
         return [deepcopy_(y) for y in x]
     if isinstance(x, dict):
@@ -861,6 +863,8 @@ def _isinst(sk, n, x, t):
     if isinstance(t, Py) and t.name in ('list', 'tuple'):
         return isinstance(x, list if t.name == 'list' else tuple)
     if isinstance(t, tuple) and t and t[0] == 'class':
+        if isinstance(x, Bag) and '__isa__' in x._a:
+            return any(t[1] in sk.m.mro(c) for c in x._a['__isa__'])        # recorder objects declare the class they stand for
         return isinstance(x, Bag) and isinstance(x._cls, tuple) and t[1] in sk.m.mro(x._cls)
     if isinstance(t, tuple):
         return any(_isinst(sk, n, x, tt) for tt in t)
